@@ -223,6 +223,95 @@ def thirdparty_font(sc, r, version=1, kerning=True, n_palettes=1, trees=None):
     return b.font(version=version, fea=fea)
 
 
+class BuildFailed(Exception):
+    pass
+
+
+def maxcolor_graph(work, font_bytes, flags, name):
+    """B3 for the second driver: the ninja graph maximum_color really writes for `font_bytes`, in the shape Build.tla's
+    MC module expects (one world), with strace-measured read sets."""
+    import os
+
+    from . import build_model as bm, ninja_graph
+
+    sb = cli.Sandbox(work / f"g-{name}")
+    (sb.root / "in.ttf").write_bytes(font_bytes)
+    rc, out = sb.run(["--noexec_ninja"] + list(flags) + ["in.ttf"], tool="maximum_color")
+    if rc != 0:
+        raise MachineryError(f"maximum_color --noexec_ninja failed: {out[-500:]}")
+    raw = ninja_graph.parse_build_dir(sb)
+
+    def norm(p):
+        return os.path.relpath(p, sb.build) if os.path.isabs(p) else p
+
+    for e in raw:
+        e["ins"], e["implicit"], e["order_only"] = [norm(x) for x in e["ins"]], [norm(x) for x in e["implicit"]], [norm(x) for x in e["order_only"]]
+    # an edge with several outputs: ninja's compdb names the first output only; the others are modelled as copies of it
+    primary = {}
+    for e in raw:
+        if e["cmd"]:
+            primary[(e["rule"], tuple(e["ins"]), tuple(e["implicit"]))] = e["out"]
+    try:
+        reads, _ = ninja_graph.measure_reads(sb, [e for e in raw if e["cmd"]])
+    except MachineryError as e:
+        if "traced build failed" in str(e):
+            raise BuildFailed(str(e)[-600:])
+        raise
+    intern = bm.Interner()
+    edges = []
+    files = {"../in.ttf"} | {e["out"] for e in raw}
+    for e in raw:
+        if e["cmd"]:
+            declared = e["ins"] + e["implicit"] + e["order_only"]
+            rd = [norm(x) for x in reads.get(e["out"], [])]
+            h = intern(e["cmd"])
+            edges.append({"out": e["out"], "ins": declared, "reads": [x for x in rd if x in files], "h": h, "sem": h, "rule": e["rule"]})
+        else:
+            prim = primary.get((e["rule"], tuple(e["ins"]), tuple(e["implicit"])))
+            if prim is None:
+                raise MachineryError(f"output {e['out']} has no command and no sibling output")
+            h = intern("secondary output of " + prim + ": " + e["out"])
+            edges.append({"out": e["out"], "ins": [prim], "reads": [prim], "h": h, "sem": h, "rule": e["rule"]})
+    final = [e["out"] for e in raw if not any(e["out"] in (o["ins"] + o["implicit"]) for o in raw)]
+    data = {"family": name, "sources": ["../in.ttf"], "opts": ["d"], "commands": {},
+            "worlds": [{"id": "w0", "present": ["../in.ttf"], "opt": "d", "edges": edges, "toml": [], "fonts": sorted(final)}]}
+    shutil.rmtree(sb.root, ignore_errors=True)
+    return data
+
+
+def model_check_graphs(chk, work, quick):
+    """Every interleaving of a maximum_color build (any -j) ends in the canonical content term, and every file a step
+    really reads is ordered before it by declared inputs (Build.tla FreeSchedule, DeclaredCoversRead)."""
+    from . import build_model as bm
+
+    # graph sizes are kept to <= 14 edges: the number of interleavings (with mtime ranks) explodes beyond that
+    jobs = [("colr", "glyf_colr_1", [], 2), ("svg", "picosvg", [], 2)]
+    if not quick:
+        jobs += [("colr-bitmaps", "glyf_colr_1", ["--bitmaps"], 1), ("svg-v0", "picosvg", ["--colr_version", "0"], 2)]
+    for name, fmt, flags, ng in jobs:
+        for attempt in range(20):
+            r = common.rng("C12", "graph", name, attempt)
+            glyphs = S.random_scenario(r, n_glyphs=ng, allow_special=False)
+            if all(vb[2] == vb[3] for _, vb, _ in glyphs):   # square art: the default bitmap resolution fits CBDT
+                break
+        cfg = build.base_config(color_format=fmt, keep_glyph_names=True)
+        _, font = build.build(cfg, CC.sources_from(glyphs), already_pico=True)
+        try:
+            data = maxcolor_graph(work, build.font_bytes(font), flags, name)
+        except BuildFailed as e:
+            # the graph as written does not build sequentially (ninja -j1): the property's output font does not exist
+            chk.violation(f"maximum_color {' '.join(flags)} on a {fmt} font fails under ninja -j1: {str(e)[-300:]}",
+                          {"format": fmt, "flags": flags, "log": str(e)})
+            continue
+        consts = dict(UserOps=[], FaultKinds=[], MaxFaults=0, MaxVer=1, FreeSchedule=True, MaxOps=1)
+        sd = work / f"spec-{name}"
+        mc = bm.write_mc(data, sd, "sched", consts, ["FreshOKx", "AllFreshx", "DeclaredCoversRead"])
+        res = common.run_tlc(mc, mc + ".cfg", spec_dir=sd, timeout=900, coverage=False)
+        chk.add_tlc(res, f"Build sched on maximum_color's graph [{name}]: all interleavings, {len(data['worlds'][0]['edges'])} edges")
+        if not res.ok:
+            chk.tlc_violation(res, f"Build/maximum_color/{name}")
+
+
 def run(chk):
     quick = chk.tier == "quick"
     chk.rule = (
@@ -275,6 +364,8 @@ def run(chk):
     for k, (fmt, flags) in enumerate(nano[: (3 if quick else 6)] * (1 if quick else 4)):
         jobs.append(("nanoemoji", k, fmt, flags, None))
     with common.scratch("c12-") as work:
+        model_check_graphs(chk, work, quick)
+
         def one(job):
             kind, k, what, flags, version = job
             r = common.rng("C12", kind, k)
